@@ -63,7 +63,11 @@ let eval inp obs =
               | Some rr ->
                 let reg = registered (take i ops) f in
                 if reg <> [] then nontriv := true;
-                if not (same_set rr reg) then ok := false)
+                (* small answers: the extracted same_set; big ones (size class > 64 roots): the same set
+                   equality on canonicalised (sorted, duplicate-free) token lists, to stay fast *)
+                let canon l = List.sort_uniq compare (List.map root_tok l) in
+                let eq = if List.length rr <= 64 && List.length reg <= 64 then same_set rr reg else canon rr = canon reg in
+                if not eq then ok := false)
            | RGet _, _ -> ok := false
            | _, ["ok"] -> ()
            | _, _ -> ok := false) (List.combine ops impl_groups);
